@@ -13,6 +13,7 @@ import (
 	"strconv"
 	"strings"
 	"testing"
+	"testing/synctest"
 	"time"
 	"verif/sim/seams"
 
@@ -30,6 +31,7 @@ var (
 	fOut      = flag.String("out", "", "summary output file (JSON)")
 	fMode     = flag.String("mode", "search", "search | replay | minimise | list")
 	fTrace    = flag.String("trace", "", "replay file (replay / minimise mode)")
+	fElapsed  = flag.Duration("elapsed", 0, "openprobe mode: simulated time that has passed in the asking run")
 	fDeadline = flag.Duration("deadline", 0, "stop starting new runs after this much wall time")
 	fProgress = flag.String("progress", "", "file that always names the run in progress (crash attribution)")
 	fLogs     = flag.Bool("logs", false, "print per-run hashes")
@@ -120,14 +122,20 @@ func Main(t *testing.T) {
 		// helper for crash images that may not open: badger leaves its background goroutines behind when Open
 		// fails, which a simulated run cannot survive - the attempt is made in a process of its own
 		// (-trace = database directory, -tier = memtable size knob)
+		// The attempt runs on the simulated clock of the run that asks (-elapsed = how far that run's clock has come):
+		// what a migration does with a saved nonce depends on its age.
 		mb, _ := strconv.Atoi(*fTier)
-		st, err := badgerstore.Open(seams.BadgerOptions(*fTrace, mb))
-		if err != nil {
-			fmt.Printf("OPEN-ERR: %v\n", err)
+		synctest.Test(t, func(t *testing.T) {
+			time.Sleep(*fElapsed)
+			st, err := badgerstore.Open(seams.BadgerOptions(*fTrace, mb))
+			if err != nil {
+				fmt.Printf("OPEN-ERR: %v\n", err)
+				os.Exit(0)
+			}
+			st.Close()
+			fmt.Println("OPEN-OK")
 			os.Exit(0)
-		}
-		st.Close()
-		fmt.Println("OPEN-OK")
+		})
 		os.Exit(0)
 	}
 	sc := scen.Get(*fScenario)
